@@ -121,6 +121,13 @@ def _positive(test: ast.expr) -> Tuple[ast.expr, bool]:
             # not a OP not b  ==  not (a OP' b)
             op2 = ast.And() if isinstance(test.op, ast.Or) else ast.Or()
             return _loc(ast.BoolOp(op2, [p for p, _ in parts]), test), True
+        # mixed: the spelling with fewer negated operands; on a tie the conjunction (`a or not b` == not (`not a and b`))
+        k = sum(1 for _p, fl in parts if fl)
+        demorgan = 2 * k > len(parts) or (2 * k == len(parts) and isinstance(test.op, ast.Or))
+        if demorgan:
+            op2 = ast.And() if isinstance(test.op, ast.Or) else ast.Or()
+            vals = [p if fl else _loc(_negate(p), p) for p, fl in parts]
+            return _loc(ast.BoolOp(op2, vals), test), True
         vals = [p if not fl else _loc(_negate(p), p) for p, fl in parts]
         return _loc(ast.BoolOp(test.op, vals), test), False
     return test, False
@@ -208,6 +215,12 @@ class Canon:
         ends the function, 'loop' when it continues the enclosing loop, else None."""
         out: List[ast.stmt] = []
         body = [x for s in body for x in self._split_tuple_assign(self._simple(s))]
+        # what follows a statement that cannot fall through (return / raise / continue / break / a no-return call) never runs
+        for k_, s_ in enumerate(body):
+            if _terminates([s_], self.noreturn) and not isinstance(s_, (ast.If, ast.With, ast.Try)) and k_ + 1 < len(body):
+                if not any(isinstance(x_, (ast.FunctionDef, ast.AsyncFunctionDef, ast.ClassDef)) for x_ in body[k_ + 1 :]):
+                    body = body[: k_ + 1]
+                break
         i = 0
         while i < len(body):
             st = self._lift_ifexp(body[i])
@@ -553,6 +566,15 @@ class _ExprNorm(ast.NodeTransformer):
         return node
 
     def visit_Compare(self, node: ast.Compare):
+        # symmetric comparisons are written with the constant on the right: `None is x` = `x is None`, `"a" == t` = `t == "a"`
+        if len(node.ops) == 1 and isinstance(node.ops[0], (ast.Is, ast.IsNot, ast.Eq, ast.NotEq)) and isinstance(node.left, ast.Constant) and not isinstance(node.comparators[0], ast.Constant):
+            node.left, node.comparators = node.comparators[0], [node.left]
+        # identity is symmetric: the operands of `is` / `is not` are put in a fixed order — here by their *shape* (names do
+        # not count: locals are renamed later, see alpha.py); operands of one shape are ordered by text after that renaming
+        # (`sort_identity_tests`, called by the loader)
+        if len(node.ops) == 1 and isinstance(node.ops[0], (ast.Is, ast.IsNot)) and not isinstance(node.left, ast.Constant) and not isinstance(node.comparators[0], ast.Constant):
+            if _shape_key(node.comparators[0]) < _shape_key(node.left):
+                node.left, node.comparators = node.comparators[0], [node.left]
         self.generic_visit(node)
         # a < b < c  ==  a < b and b < c   (the middle operands are evaluated once: only for side-effect-free ones)
         if len(node.ops) > 1 and all(_pure_expr(c) for c in node.comparators[:-1]):
@@ -1439,6 +1461,25 @@ def _functions(tree: ast.Module):
     return out
 
 
+def _shape_key(e: ast.expr) -> str:
+    """The structure of an expression with every identifier blanked (a name-independent sort key)."""
+    return " ".join(type(n).__name__ for n in ast.walk(e))
+
+
+def sort_identity_tests(tree: ast.AST) -> int:
+    """After locals have their reference names again: operands of `is` / `is not` that have one shape are ordered by text."""
+    n = 0
+    for node in ast.walk(tree):
+        if isinstance(node, ast.Compare) and len(node.ops) == 1 and isinstance(node.ops[0], (ast.Is, ast.IsNot)):
+            l, r = node.left, node.comparators[0]
+            if isinstance(l, ast.Constant) or isinstance(r, ast.Constant):
+                continue
+            if _shape_key(l) == _shape_key(r) and ast.unparse(r) < ast.unparse(l):
+                node.left, node.comparators = r, [l]
+                n += 1
+    return n
+
+
 def _row_value(v: ast.expr) -> bool:
     """A table entry that can be written where the loop variable stood: a name / attribute chain / constant, a lambda,
     or a tuple of such (`(A, B)` as the class argument of isinstance)."""
@@ -1707,10 +1748,10 @@ def canonicalise(tree: ast.Module, ref_funcs: Optional[Set[str]], ref_consts: Op
             fn.body = canon.function_body(fn.body)
         return n
 
-    # ---- C5 / C6 after inlining (extracted code comes with parameter temporaries)
+    # ---- C5 / C6 after inlining (extracted code comes with parameter temporaries); local functions are functions too
     for q, cls, fn, _c in funcs:
-        if ".<locals>." in q:
-            continue
+        if ".<locals>." in q and not any(fn is x for _q2, _c2, f2, _b2 in funcs for x in ast.walk(f2) if f2 is not fn):
+            continue  # (a local function that was inlined away)
         # C12 for every function: a predicate written as a decision tree of boolean returns is one boolean expression
         if expression_bodied(fn):
             stats["predicates"] = stats.get("predicates", 0) + 1
